@@ -228,7 +228,12 @@ def run_group(case, out):
     fmt = [csc_matrix, coo_matrix, csr_matrix][case["id"] % 3]
     why, key = "", ""
     try:
-        a = ivp.solve_ivp(fun, (t0, 0.05), y0, jac_sparsity=fmt(P), **kw)
+        if case.get("unsorted"):
+            # a CSC matrix whose row indices are stored in the (shuffled) order the harness chose
+            sp = csc_matrix((np.ones(len(case["indices"])), np.array(case["indices"], dtype=np.int32), np.array(case["indptr"], dtype=np.int32)), shape=(n, n))
+        else:
+            sp = fmt(P)
+        a = ivp.solve_ivp(fun, (t0, 0.05), y0, jac_sparsity=sp, **kw)
     except BaseException as e:
         out.append("panic")
         mon(case=case["id"], op="group", n=n, ok=False, why="solve_ivp with jac_sparsity raised %s: %s" % (type(e).__name__, str(e)[:100]), finding_key="c20-sparsity-error")
